@@ -249,6 +249,16 @@ func init() {
 		m.ex.noteAssumption("sequential execution: mutexes/waitgroups are no-ops")
 		return nil
 	})
+	reg("sync.NewCond", func(m *M, fn *ssa.Function, a []Value, r ssa.Value) Value {
+		t := fn.Signature.Results().At(0).Type().(*types.Pointer).Elem()
+		id := m.st.alloc(zero(t), t)
+		return PtrV{Obj: id}
+	})
+	reg("(*sync.Cond).Broadcast|(*sync.Cond).Signal", func(m *M, fn *ssa.Function, a []Value, r ssa.Value) Value { return nil })
+	reg("(*sync.Cond).Wait", func(m *M, fn *ssa.Function, a []Value, r ssa.Value) Value {
+		m.ex.noteAssumption("sync.Cond.Wait returns immediately (sequential model: the awaited event is not modelled)")
+		return nil
+	})
 	reg("(*sync.Mutex).TryLock", func(m *M, fn *ssa.Function, a []Value, r ssa.Value) Value { return smt.True })
 	reg("(*sync.Once).Do", func(m *M, fn *ssa.Function, a []Value, r ssa.Value) Value {
 		k := m.auxKeyOf(a[0], "once.done")
